@@ -177,6 +177,23 @@ def handle (op : String) (args : List String) : Option String :=
         | none => pure "cfgerr"
         | some cfg => session cfg evs
     | _ => none
+  | "mysession", toks => do
+    let (cfg, rest) ← parseCfg toks
+    match rest with
+    | n :: evs =>
+      let n ← n.toNat?
+      if evs.length != n then none
+      else match cfg with
+        | none => pure "cfgerr"
+        | some cfg => do
+          let ss ← evs.mapM fun ev => stmtOf (ev.drop 2).toString
+          -- Session.myStep per statement
+          let outs := ss.map fun s =>
+            match Session.myStep (fun _ => handleQuery sem cfg s == .deny) "" with
+            | [.forwardDb _] => "F"
+            | _ => "E"
+          pure (" ".intercalate ("ok" :: outs))
+    | _ => none
   | _, _ => none
 
 end Driver.C05
